@@ -1,8 +1,8 @@
 (* Extraction of the end-to-end credit model (Proto/Credit.v) for the C05 client-side
    correspondence check (ExtrOcamlBasic only): harness `chanflow` schedules are replayed through
-   [wstep]; [send_ready] and [recv_result] are the observations. *)
+   [wstep]; [send_ready], [receiver_closed] and [recv_result] are the observations. *)
 From Coq Require Import NArith.
 From Aldrin Require Import Broker.Model Proto.Credit.
 Require Extraction ExtrOcamlBasic.
 Extraction Language OCaml.
-Extraction "credit_model.ml" winit wstep send_ready recv_result N.of_nat N.to_nat.
+Extraction "credit_model.ml" winit wstep send_ready receiver_closed recv_result N.of_nat N.to_nat.
